@@ -41,6 +41,10 @@ def run(c):
     nmut = 4000 if c.quick else 100000
     for n in range(nmut):
         fz.append({"sc": len(fz), "entry": "image" if n % 2 else "sig", "mode": "mutate", "n": n})
+    # long series of distinct images / signatures, one after the other and from 8 goroutines at once: the process survives, nothing piles up in memory
+    for e in ("image", "sig"):
+        for par in (1, 8):
+            fz.append({"sc": len(fz), "entry": e, "mode": "many", "n": 4000 if c.quick else 60000, "par": par})
     res, deaths = c.run_worker("fuzz", fz, env=env, timeout=3000)
     calls.add_run("fuzz", fz, res, deaths)
     by.update({("fuzz", s["sc"]): s for s in fz})
@@ -58,7 +62,7 @@ def run(c):
                      "distinct_nontrivial = number of distinct inputs") % (nrel, "13th" if c.quick else "single", nmut)
     c.sample(scen[0]); c.sample(fz[-1])
     # canary
-    cn = R.Calls(); cn.rec = [("x", 0, {"entry": "canary", "len": 10, "outcome": "panic", "alloc": 0, "ms": 0, "panic": ""})]
+    cn = R.Calls(); cn.rec = [("x", 0, {"entry": "canary", "len": 10, "outcome": "panic", "alloc": 0, "ms": 0, "read": 0, "retained": 0, "panic": ""})]
     r = c.tlc("Outcome", "outcome.cfg", files={"calls.ndjson": json.dumps({k: v for k, v in cn.rec[0][2].items() if k != "panic"}) + "\n"}, name="canary", count=False)
     if "CALL_REJECTED" not in r.out:
         raise vf.FrameworkError("canary accepted")
